@@ -164,6 +164,9 @@ pub struct Obs {
     pub range: Option<(usize, usize, usize, usize)>,
     pub snap: Snap,
     pub memhash: u64,
+    /// the bytes between the reserved prefix and the data area (identification block, padding, header when it lives
+    /// in the buffer), recorded when `Mode::prefix` is set
+    pub prefix: Vec<u8>,
 }
 
 pub struct H {
@@ -201,6 +204,8 @@ pub struct Mode {
     pub dirty: bool,
     /// record a hash of memory() in every observation
     pub memhash: bool,
+    /// record memory()[reserved..data_offset] in every observation
+    pub prefix: bool,
     /// C06: record a snapshot of memory() at every atomic step (crash points)
     pub crash: bool,
     /// post-crash world: only C01-type predicates and termination are judged
@@ -257,6 +262,9 @@ pub struct World<A: Flavor> {
     pub reserved_expect: Vec<u8>,
     pub ro: bool,
     pub cow: Option<Saved>,
+    /// the current copy-on-write session holds a descriptor without write access: a truncate that has to grow the
+    /// file is refused by the operating system (and must then change nothing)
+    pub cow_nowrite: bool,
     pub path: Option<PathBuf>,
     pub truncated: bool,
     pub classes: BTreeSet<&'static str>,
@@ -409,10 +417,13 @@ pub fn open_variant<A: Flavor>(
 ) -> std::io::Result<A> {
     let pp = path.to_path_buf();
     let b = move || Ok::<_, std::io::Error>(pp);
+    // bit 2 of `mode`: a copy-on-write open through a descriptor without write access (nothing is ever written to the
+    // file in such a session, so none is needed)
+    let cow_write = mode & 4 == 0;
     unsafe {
         match (mode & 3, pb) {
             (0, false) => o.with_write(true).map_mut::<A, _>(path),
-            (1, false) => o.with_write(true).map_copy::<A, _>(path),
+            (1, false) => o.with_write(cow_write).map_copy::<A, _>(path),
             (2, false) => o.map::<A, _>(path),
             (_, false) => o.map_copy_read_only::<A, _>(path),
             (0, true) => o
@@ -420,7 +431,7 @@ pub fn open_variant<A: Flavor>(
                 .map_mut_with_path_builder::<A, _, _>(b)
                 .map_err(either_io),
             (1, true) => o
-                .with_write(true)
+                .with_write(cow_write)
                 .map_copy_with_path_builder::<A, _, _>(b)
                 .map_err(either_io),
             (2, true) => o.map_with_path_builder::<A, _, _>(b).map_err(either_io),
@@ -534,6 +545,7 @@ impl<A: Flavor> World<A> {
             reserved_expect,
             ro: false,
             cow: None,
+            cow_nowrite: false,
             path,
             truncated: false,
             classes: BTreeSet::new(),
@@ -598,6 +610,7 @@ impl<A: Flavor> World<A> {
             reserved_expect,
             ro: false,
             cow: None,
+            cow_nowrite: false,
             path,
             truncated: false,
             classes: BTreeSet::new(),
@@ -1436,6 +1449,13 @@ impl<A: Flavor> World<A> {
                 range,
                 snap: post,
                 memhash,
+                prefix: if self.mode.prefix {
+                    let a = self.a();
+                    let (r, d) = (a.reserved_bytes().min(a.capacity()), a.data_offset().min(a.capacity()));
+                    self.mem().get(r..d).map(|b| b.to_vec()).unwrap_or_default()
+                } else {
+                    Vec::new()
+                },
             });
         }
         Ok(())
@@ -2619,6 +2639,16 @@ impl<A: Flavor> World<A> {
             );
             return Ok("refused".into());
         }
+        if r.is_err() && self.cow_nowrite {
+            // the operating system refused to grow a file that was opened without write access: a failure the caller
+            // can expect; what the arena owes them is that nothing changed (the laws that hold after every step - in
+            // particular remaining() == capacity() - allocated() - are judged right after this step as usual)
+            self.classes.insert("truncate-refused-by-the-os");
+            ensure!(pre == post, "C18|C16", "truncate-refused-effect", "truncate({n}) failed ({r:?}) but changed state: {pre:?} -> {post:?}");
+            let after = &self.mem()[..post.allocated];
+            ensure!(after == &before[..], "C18", "truncate-bytes", "truncate({n}) failed but changed bytes below allocated()");
+            return Ok("io-err".into());
+        }
         ensure!(
             r.is_ok(),
             "C18",
@@ -2826,7 +2856,13 @@ impl<A: Flavor> World<A> {
             self.classes.insert("reopen-ro-with-write-flags");
         }
         let what = OPEN_NAMES[mode as usize + 4 * usize::from(pb)];
-        let r = guard(what, "C05", || open_variant::<A>(o, mode, pb, &path))?;
+        let nowrite = mode == 1 && flags & 16 != 0 && !create && capsel % 3 != 1 && capsel != 3;
+        self.cow_nowrite = false;
+        let r = guard(what, "C05", || open_variant::<A>(o, if nowrite { mode | 4 } else { mode }, pb, &path))?;
+        if nowrite && r.is_ok() {
+            self.cow_nowrite = true;
+            self.classes.insert("cow-session-without-write-access");
+        }
         let before_below = if below {
             std::fs::read(&path).ok()
         } else {
